@@ -203,7 +203,11 @@ pub mod own {
                         Some(Obj::Nodes(v)) => {
                             format!("nodes {}", v.iter().map(|n| format!("{}:{}", n.key(), n.value().id)).collect::<Vec<_>>().join(" "))
                         }
-                        Some(Obj::Graph(g)) => format!("graph {}", g.len()),
+                        Some(Obj::Graph(g)) => {
+                            let mut ms: Vec<(u64, i64)> = g.to_vec().iter().map(|n| (*n.key(), n.value().id)).collect();
+                            ms.sort();
+                            format!("graph {}{}", g.len(), ms.iter().map(|(k, v)| format!(" {}:{}", k, v)).collect::<String>())
+                        }
                         None => "empty".to_string(),
                     },
                     other => format!("unknown-step {}", other),
